@@ -1,5 +1,123 @@
 import RV.Json
+import RV.Drv.Arith
+import RV.Drv.Traffic
+import RV.Model.RolloutSM
+import RV.Oracle.RolloutSM
 namespace RV.Drv.RolloutSM
-open Lean RV
-def handle : Handler := fun op _ _ => .error s!"RolloutSM: op {op} not implemented"
+open Lean RV RV.Arith RV.Traffic RV.RolloutSM RV.Drv.Arith RV.Drv.Traffic
+
+def styleOf : String → Style | "blueGreen" => .blueGreen | _ => .canary
+def phaseOf : String → Phase
+  | "" => .empty | "Initial" => .initial | "Healthy" => .healthy | "Progressing" => .progressing
+  | "Terminating" => .terminating | "Disabled" => .disabled | "Disabling" => .disabling | _ => .empty
+def phaseStr : Phase → String
+  | .empty => "" | .initial => "Initial" | .healthy => "Healthy" | .progressing => "Progressing"
+  | .terminating => "Terminating" | .disabled => "Disabled" | .disabling => "Disabling"
+def reasonOf : String → PReason
+  | "none" => .none | "initializing" => .initializing | "inRolling" => .inRolling | "finalising" => .finalising
+  | "paused" => .paused | "cancelling" => .cancelling | "completed" => .completed | _ => .other
+def reasonStr : PReason → String
+  | .none => "none" | .initializing => "initializing" | .inRolling => "inRolling" | .finalising => "finalising"
+  | .paused => "paused" | .cancelling => "cancelling" | .completed => "completed" | .other => "other"
+def stateOf : String → StepState
+  | "init" => .init | "upgrade" => .upgrade | "trafficRouting" => .trafficRouting | "metricsAnalysis" => .metricsAnalysis
+  | "paused" => .paused | "ready" => .ready | "completed" => .completed | _ => .other
+def stateStr : StepState → String
+  | .init => "init" | .upgrade => "upgrade" | .trafficRouting => "trafficRouting" | .metricsAnalysis => "metricsAnalysis"
+  | .paused => "paused" | .ready => "ready" | .completed => "completed" | .other => "other"
+def finOf : String → FinStep
+  | "empty" => .empty | "resumeWorkload" => .resumeWorkload | "releaseWorkloadControl" => .releaseWorkloadControl
+  | "routeTrafficToStable" => .routeTrafficToStable | "restoreStableService" => .restoreStableService
+  | "removeCanaryService" => .removeCanaryService | "routeTrafficToNew" => .routeTrafficToNew | "end_" => .end_ | _ => .other
+def finStr : FinStep → String
+  | .empty => "empty" | .resumeWorkload => "resumeWorkload" | .releaseWorkloadControl => "releaseWorkloadControl"
+  | .routeTrafficToStable => "routeTrafficToStable" | .restoreStableService => "restoreStableService"
+  | .removeCanaryService => "removeCanaryService" | .routeTrafficToNew => "routeTrafficToNew" | .end_ => "end_" | .other => "other"
+def pauseOf : String → Pause | "short" => .short | "long" => .long | _ => .manual
+def pauseStr : Pause → String | .short => "short" | .long => "long" | .manual => "manual"
+def hashOf : String → HashRel | "same" => .same | "differs" => .differs | _ => .empty
+def hashStr : HashRel → String | .same => "same" | .differs => "differs" | .empty => "empty"
+def ageStr : Age → String | .none => "none" | .fresh => "fresh" | .elapsed => "elapsed"
+def termOf : String → TermReason | "inTerminating" => .inTerminating | "completed" => .completed | _ => .none
+def termStr : TermReason → String | .inTerminating => "inTerminating" | .completed => "completed" | .none => "none"
+
+def stepOfJson (j : Json) : R Step := do
+  return { replicas := ← iosOfJson (← jget j "replicas"), weight := ← fOptNat j "weight", pause := pauseOf (← fStr j "pause") }
+def stepToJson (s : Step) : Json :=
+  mkObj [("replicas", iosToJson s.replicas), ("weight", optJ natJ s.weight), ("pause", strJ (pauseStr s.pause))]
+
+def subOfJson (j : Json) : R Sub := do
+  return { curIdx := ← fInt j "curIdx", nextIdx := ← fInt j "nextIdx", state := stateOf (← fStr j "state"),
+           finStep := finOf (← fStr j "finStep"), canaryRev := ← fStr j "canaryRev", stableRev := ← fStr j "stableRev",
+           podHash := ← fStr j "podHash", hash := hashOf (← fStr j "hash"), observedRolloutID := ← fStr j "observedRolloutID",
+           observedGen := ← fInt j "observedGen", lastUpdate := ageOf (← fStr j "lastUpdate") }
+def subToJson (s : Sub) : Json :=
+  mkObj [("curIdx", intJ s.curIdx), ("nextIdx", intJ s.nextIdx), ("state", strJ (stateStr s.state)), ("finStep", strJ (finStr s.finStep)),
+    ("canaryRev", strJ s.canaryRev), ("stableRev", strJ s.stableRev), ("podHash", strJ s.podHash), ("hash", strJ (hashStr s.hash)),
+    ("observedRolloutID", strJ s.observedRolloutID), ("observedGen", intJ s.observedGen), ("lastUpdate", strJ (ageStr s.lastUpdate))]
+
+def roOfJson (j : Json) : R Rollout := do
+  let sub ← (match jopt j "sub" with | none => pure none | some s => do pure (some (← subOfJson s)))
+  let succ ← (match jopt j "succeeded" with | none => pure none | some b => do pure (some (← jbool b)))
+  return { style := styleOf (← fStr j "style"), steps := ← (← fArrD j "steps").mapM stepOfJson, paused := ← fBool j "paused",
+           disabled := ← fBool j "disabled", deleting := ← fBool j "deleting", hasFinalizer := ← fBool j "hasFinalizer",
+           hasTraffic := ← fBool j "hasTraffic", disableGen := ← fBool j "disableGen", rollbackInBatch := ← fBool j "rollbackInBatch",
+           grace := ← fNat j "grace", phase := phaseOf (← fStr j "phase"), reason := reasonOf (← fStr j "reason"),
+           condAge := ageOf (← fStr j "condAge"), succeeded := succ, term := termOf (← fStr j "term"), sub := sub }
+/-- output canonicalisation shared with the harness: an illegal next-step index is shown corrected
+    (whether the in-memory correction is also persisted depends on unrelated status fields) -/
+def normNext (r : Rollout) : Rollout :=
+  let n : Int := r.steps.length
+  { r with sub := r.sub.map fun s => if s.nextIdx ≤ 0 ∨ s.nextIdx > n then { s with nextIdx := nextBatchIndex n s.curIdx } else s }
+
+def roToJson (r0 : Rollout) : Json :=
+  let r := normNext r0
+  mkObj [("style", strJ (match r.style with | .canary => "canary" | .blueGreen => "blueGreen")), ("steps", arrJ (r.steps.map stepToJson)),
+    ("paused", boolJ r.paused), ("disabled", boolJ r.disabled), ("deleting", boolJ r.deleting), ("hasFinalizer", boolJ r.hasFinalizer),
+    ("hasTraffic", boolJ r.hasTraffic), ("disableGen", boolJ r.disableGen), ("rollbackInBatch", boolJ r.rollbackInBatch),
+    ("grace", natJ r.grace), ("phase", strJ (phaseStr r.phase)), ("reason", strJ (reasonStr r.reason)), ("condAge", strJ "ignored"),
+    ("succeeded", optJ boolJ r.succeeded), ("term", strJ (termStr r.term)), ("sub", optJ subToJson r.sub)]
+
+def wlOfJson (j : Json) : R WL := do
+  return { consistent := ← fBool j "consistent", inProgressAnno := ← fBool j "inProgressAnno", canaryRev := ← fStr j "canaryRev",
+           stableRev := ← fStr j "stableRev", inRollback := ← fBool j "inRollback", replicas := ← fInt j "replicas", generation := ← fInt j "generation" }
+def wlToJson (w : WL) : Json :=
+  mkObj [("consistent", boolJ w.consistent), ("inProgressAnno", boolJ w.inProgressAnno), ("canaryRev", strJ w.canaryRev),
+    ("stableRev", strJ w.stableRev), ("inRollback", boolJ w.inRollback), ("replicas", intJ w.replicas), ("generation", intJ w.generation)]
+
+def brOfJson (j : Json) : R BR := do
+  return { batches := ← (← fArrD j "batches").mapM iosOfJson, partition := ← fOptInt j "partition", rolloutID := ← fStr j "rolloutID",
+           policy := ← fStr j "policy", rollbackAnno := ← fBool j "rollbackAnno", specOther := ← fBool j "specOther",
+           deleting := ← fBool j "deleting", phaseCompleted := ← fBool j "phaseCompleted", currentBatch := ← fInt j "currentBatch",
+           batchReady := ← fBool j "batchReady", hashSame := ← fBool j "hashSame", genObserved := ← fBool j "genObserved" }
+def brToJson (b : BR) : Json :=
+  mkObj [("batches", arrJ (b.batches.map iosToJson)), ("partition", optJ intJ b.partition), ("rolloutID", strJ b.rolloutID),
+    ("policy", strJ b.policy), ("rollbackAnno", boolJ b.rollbackAnno), ("specOther", boolJ b.specOther), ("deleting", boolJ b.deleting),
+    ("phaseCompleted", boolJ b.phaseCompleted), ("currentBatch", intJ b.currentBatch), ("batchReady", boolJ b.batchReady),
+    ("hashSame", boolJ b.hashSame), ("genObserved", boolJ b.genObserved)]
+
+def worldOfJson (j : Json) : R World := do
+  let wl ← (match jopt j "wl" with | none => pure none | some x => do pure (some (← wlOfJson x)))
+  let br ← (match jopt j "br" with | none => pure none | some x => do pure (some (← brOfJson x)))
+  return { ro := ← roOfJson (← jget j "ro"), wl := wl, br := br, net := ← netOfJson (← jget j "net"), mem := ← memOfJson (← jget j "mem") }
+
+def handle : Handler := fun op inp impl => do
+  match op with
+  | "reconcile" =>
+    let w ← worldOfJson inp
+    let tags := [s!"phase:{phaseStr w.ro.phase}", s!"reason:{reasonStr w.ro.reason}",
+      match w.ro.sub with | some s => s!"state:{stateStr s.state}" | none => "nosub",
+      if w.wl.isSome then "wl" else "nowl", if w.br.isSome then "br" else "nobr",
+      if w.ro.hasTraffic then "traffic" else "notraffic", match w.ro.style with | .canary => "canary" | .blueGreen => "blueGreen"]
+    let implPanic := (jopt impl "panic").isSome
+    let holds := [("C09.rollout_no_panic", !implPanic || RV.Oracle.RolloutSM.corrupted w)]
+    match reconcile w with
+    | .panic => return { model := mkObj [("panic", strJ "?")], holds := holds, tags := "panic" :: tags }
+    | .val r =>
+      let wj := mkObj [("ro", if r.roGone then .null else roToJson r.w.ro), ("wl", optJ wlToJson r.w.wl), ("br", optJ brToJson r.w.br),
+                       ("net", netToJson r.w.net), ("mem", memToJson r.w.mem)]
+      return { model := mkObj [("requeue", boolJ r.requeue), ("err", boolJ r.err), ("roGone", boolJ r.roGone), ("w", wj)],
+               holds := holds, tags := tags }
+  | _ => .error s!"rolloutsm: unknown op {op}"
+
 end RV.Drv.RolloutSM
